@@ -498,9 +498,10 @@ void Sim::mk(const Cg& c) {
   }
   struct stat stt;
   if (::stat(dir.c_str(), &stt) == 0) {
-    ever_[stt.st_ino] = c.path;
-    everX_[stt.st_ino] = c.xattrs;
-    if (g.virt_ino) g.virtRegister(c.path, stt.st_ino);
+    // identities as the code under test sees them (kernfs-style when the scenario asks for it)
+    uint64_t ident = g.virt_ino ? g.virtRegister(c.path, stt.st_ino) : (uint64_t)stt.st_ino;
+    ever_[ident] = c.path;
+    everX_[ident] = c.xattrs;
   }
   for (auto& kv : c.xattrs) {
     if (::setxattr(dir.c_str(), kv.first.c_str(), kv.second.data(), kv.second.size(), 0) != 0) {
@@ -602,7 +603,7 @@ void Sim::apply(const Op& op) {
     // parents before children
     std::stable_sort(w_.cgs.begin(), w_.cgs.end(), [](const Cg& a, const Cg& b) { return std::count(a.path.begin(), a.path.end(), '/') + (a.path.empty() ? -1 : 0) < std::count(b.path.begin(), b.path.end(), '/') + (b.path.empty() ? -1 : 0); });
     struct stat st;
-    if (::stat(dest.c_str(), &st) == 0) ever_[st.st_ino] = op.to;
+    if (::stat(dest.c_str(), &st) == 0) ever_[g.virtOf(st.st_ino)] = op.to;
   } else if (op.op == "mk") {
     if (w_.find(op.cg.path)) {
       // already exists: treat as remove + re-create (a different cgroup)
